@@ -23,7 +23,7 @@ from harness.framework import Check
 from harness.props import orchhist_common as oc
 
 PROP = "C08"
-FLAGS = ["q_dry_keeps_storage", "q_lintfile_leaves_evidence", "q_consts_in_processing_order"]
+FLAGS = ["q_dry_keeps_storage", "q_lintfile_leaves_evidence", "q_consts_in_processing_order", "q_ignore_parser_reused"]
 HEADER = "From Coq Require Import NArith.\nFrom TL Require Import Lib.Base Model.OrchHist Model.OrchHistRun Actual.OrchHistActual.\n"
 LINT_KINDS = ("LintFile", "LintFiles", "LintDir", "ApiFile", "ApiDir")
 CLI_COMMANDS = ["blocking-async", "clone-abuse", "dry", "file-header", "file-placement", "improper-logging", "lazy-ignores", "lbyl",
@@ -34,7 +34,8 @@ CLI_COMMANDS = ["blocking-async", "clone-abuse", "dry", "file-header", "file-pla
 # ------------------------------------------------------------------ generation
 def gen_history(r, proj: dict, n_ops: int) -> list:
     paths = proj["paths"]
-    special = {paths.index(oc.CONFIG_NAME)} | ({paths.index(oc.IGNORE_NAME)} if oc.IGNORE_NAME in paths else set())
+    ign = paths.index(oc.IGNORE_NAME)
+    special = {paths.index(oc.CONFIG_NAME), ign}
     fs = {int(k): v for k, v in proj["fs0"].items()}
     hist = []
 
@@ -58,12 +59,29 @@ def gen_history(r, proj: dict, n_ops: int) -> list:
         live = [di for di, d in enumerate(proj["dirs"]) if any(oc.in_dir(d, paths[p]) for p in fs)]
         return r.choice([0, 0] + live)
 
+    def ignore_edit():
+        """change the ignore file, then (configuration is read at construction) build a new Linter in the same process"""
+        cur = proj["contents"][fs[ign]][1][1] if ign in fs else None
+        choices = [x for x in oc.IGNORE_POOL + [None] if x != cur]
+        new = r.choice(choices)
+        if new is None:
+            ops = [["Delete", ign]]
+            del fs[ign]
+        else:
+            proj["contents"].append([oc.IGNORE_NAME, ["IGNORE", new]])
+            c = len(proj["contents"]) - 1
+            ops = [["Edit" if ign in fs else "Add", ign, c]]
+            fs[ign] = c
+        return ops + [["NewLinter"]]
+
     templates = r.random()
-    if templates < 0.12 and len(code_files()) >= 2:       # delete between two directory runs
+    if templates < 0.10:                                   # lint, change the ignore file, new Linter, lint again
+        hist += [[r.choice(["ApiDir", "LintDir"]), 0]] + ignore_edit() + [["ApiDir", 0]]
+    elif templates < 0.2 and len(code_files()) >= 2:       # delete between two directory runs
         victim = r.choice(code_files())
         hist += [["ApiDir", 0], ["Delete", victim], ["ApiDir", 0]]
         del fs[victim]
-    elif templates < 0.22 and len(code_files()) >= 2:      # single-file call, then a batch elsewhere
+    elif templates < 0.3 and len(code_files()) >= 2:      # single-file call, then a batch elsewhere
         a, b = r.sample(code_files(), 2)
         hist += [[r.choice(["LintFile", "ApiFile"]), a], ["LintFiles", [b]]]
     while len(hist) < n_ops:
@@ -89,10 +107,12 @@ def gen_history(r, proj: dict, n_ops: int) -> list:
             c = new_content(p, fs[p])
             hist.append(["Edit", p, c])
             fs[p] = c
-        elif x < 0.93 and len(cf) > 1:
+        elif x < 0.91 and len(cf) > 1:
             p = r.choice(cf)
             hist.append(["Delete", p])
             del fs[p]
+        elif x < 0.955:
+            hist += ignore_edit() if r.random() < 0.7 else [["NewLinter"]]
         else:
             gone = [i for i in range(len(paths)) if i not in fs and i not in special]
             if gone:
@@ -113,6 +133,27 @@ def gen_cases(seed: int, n: int, max_ops: int) -> list:
         hist = gen_history(r, proj, r.randint(3, max_ops))
         cases.append({"i": i, "proj": proj, "history": hist})
     return cases
+
+
+def _add_ignore_path(case: dict) -> None:
+    """insert the (absent) ignore file into the sorted path universe of a case recorded before it was mandatory"""
+    proj = case["proj"]
+    old = proj["paths"]
+    new = sorted(old + [oc.IGNORE_NAME])
+    ren = {i: new.index(p) for i, p in enumerate(old)}
+    proj["paths"] = new
+    proj["fs0"] = {str(ren[int(k)]): v for k, v in proj["fs0"].items()}
+
+    def fix(op):
+        k = op[0]
+        if k in ("LintFile", "ApiFile", "Delete"):
+            return [k, ren[op[1]]]
+        if k == "LintFiles":
+            return [k, [ren[p] for p in op[1]]]
+        if k in ("Edit", "Add"):
+            return [k, ren[op[1]], op[2]]
+        return op
+    case["history"] = [fix(o) for o in case["history"]]
 
 
 def corpus_cases() -> list:
@@ -157,12 +198,30 @@ def _call(lin, root: Path, proj: dict, op: list):
 
 
 def _fresh_call(root: Path, proj: dict, op: list) -> list:
-    """the call on a fresh Linter that is released before returning"""
-    fl = oc.fresh_linter(root)
+    """the call on a Linter built as in a fresh process, released before returning; the process state the long-lived
+    object under test lives in is put back afterwards"""
+    with oc.ProcessStateGuard():
+        fl = oc.fresh_linter(root)
+        try:
+            return [oc.canon_violation(v, root) for v in _call(fl, root, proj, op)]
+        finally:
+            del fl
+
+
+def _perfile_call(root: Path, proj: dict, p: int) -> list:
+    """what the rules' check() returns for this file when it IS linted: measured on a fresh object with the ignore file
+    moved out of the way (whether a path is ignored is a separate parameter of the model)"""
+    ig = root / oc.IGNORE_NAME
+    saved = ig.read_bytes() if ig.exists() and proj["paths"][p] != oc.IGNORE_NAME else None
+    if saved is not None:
+        st = ig.stat()
+        ig.unlink()
     try:
-        return [oc.canon_violation(v, root) for v in _call(fl, root, proj, op)]
+        return _fresh_call(root, proj, ["LintFile", p])
     finally:
-        del fl
+        if saved is not None:
+            ig.write_bytes(saved)
+            os.utime(ig, ns=(st.st_atime_ns, st.st_mtime_ns))
 
 
 def run_impl(case: dict) -> dict:
@@ -172,18 +231,27 @@ def run_impl(case: dict) -> dict:
     proj = case["proj"]
     res = {"ops": [], "impl": [], "fresh": [], "pf": [], "side": [], "tmp_left": [], "failures": [], "error": None}
     old_tmp = tempfile.tempdir
+    old_cwd = os.getcwd()
     with scratch_dir("tv-c08-") as d:
         root, tmp = d / "proj", d / "tmp"
         root.mkdir()
         tmp.mkdir()
         tempfile.tempdir = str(tmp)
         try:
+            os.chdir(root)      # a long-lived process working in its project root (editor plug-in, daemon)
             fs = {int(k): v for k, v in proj["fs0"].items()}
             oc.write_project(root, proj, fs)
             res["hard"], res["ign"] = oc.path_flags(root, proj)
             lin = oc.fresh_linter(root)
             measured = set()
             for si, op in enumerate(case["history"]):
+                if op[0] == "NewLinter":
+                    del lin
+                    lin = oc.same_process_linter(root)   # nothing is cleared: what a long-lived process does
+                    res["ops"].append(op)
+                    res["impl"].append([])
+                    res["fresh"].append([])
+                    continue
                 if op[0] not in LINT_KINDS:
                     _apply_fs(root, proj, fs, op)
                     res["ops"].append(op)
@@ -216,7 +284,7 @@ def run_impl(case: dict) -> dict:
                     if key in measured:
                         continue
                     measured.add(key)
-                    res["pf"].append([p, fs.get(p), _fresh_call(root, proj, ["LintFile", p])])
+                    res["pf"].append([p, fs.get(p), _perfile_call(root, proj, p)])
             del lin
             import gc
             gc.collect()
@@ -229,6 +297,7 @@ def run_impl(case: dict) -> dict:
             res["error"] = f"{type(e).__name__}: {e}\n{traceback.format_exc()[-1500:]}"
         finally:
             tempfile.tempdir = old_tmp
+            os.chdir(old_cwd)
     return res
 
 
@@ -257,21 +326,21 @@ def measure_queries(job) -> list:
 # ------------------------------------------------------------------ Coq side
 def _coq_ctx(case, impl) -> str:
     proj = case["proj"]
-    return f"{oc.coq_nat_list(impl['hard'])} {oc.coq_nat_list(impl['ign'])} {oc.coq_dirs(proj)}"
+    return f"{oc.coq_nat_list(impl['hard'])} {oc.coq_ign(impl['ign'])} {proj['paths'].index(oc.IGNORE_NAME)} {oc.coq_dirs(proj)}"
 
 
 def _hist(ops) -> str:
     return "[" + "; ".join(oc.coq_op(o) for o in ops) + "]"
 
 
-def phase_queries(cases, impls, wd: Path, per_shard=12):
+def phase_queries(cases, impls, wd: Path, per_shard=12, th=None):
     lines = []
     for case, impl in zip(cases, impls):
         ops = impl["ops"]
         lines.append(f"Eval vm_compute in (queries08 {_coq_ctx(case, impl)} orch_actual {oc.coq_fs(case['proj']['fs0'])} "
                      f"{_hist(ops)} {_hist([oc.canon_op(o) for o in ops])}).")
     shards = ["\n".join(lines[s:s + per_shard]) for s in range(0, len(lines), per_shard)]
-    outs = coq.eval_shards(wd / "q", HEADER, shards)
+    outs = oc.eval_shards(th, wd / "q", HEADER, shards)
     flat = [x for o in outs for x in o]
     if len(flat) != len(cases):
         raise RuntimeError(f"expected {len(cases)} query lists, got {len(flat)}")
@@ -288,7 +357,7 @@ def phase_queries(cases, impls, wd: Path, per_shard=12):
     return res
 
 
-def phase_judge(cases, impls, queries, measured, wd: Path, per_shard=8):
+def phase_judge(cases, impls, queries, measured, wd: Path, per_shard=8, th=None):
     lines, idmaps = [], []
     for case, impl, qs, ms in zip(cases, impls, queries, measured):
         ids = oc.Ids()
@@ -307,7 +376,7 @@ def phase_judge(cases, impls, queries, measured, wd: Path, per_shard=8):
                      f"{_hist(ops)} {_hist([oc.canon_op(o) for o in ops])} {imp} {fre}).")
         idmaps.append(ids)
     shards = ["\n".join(lines[s:s + per_shard]) for s in range(0, len(lines), per_shard)]
-    outs = coq.eval_shards(wd / "j", HEADER, shards)
+    outs = oc.eval_shards(th, wd / "j", HEADER, shards)
     flat = [x for o in outs for x in o]
     if len(flat) != len(cases):
         raise RuntimeError(f"expected {len(cases)} verdicts, got {len(flat)}")
@@ -462,6 +531,9 @@ def run(tier: str, seed: int, replay: str | None = None) -> int:
     else:
         cases = corpus_cases() + gen_cases(seed, n, max_ops)
         cjobs = cli_jobs(seed, tier)
+    for c in cases:     # older corpus / replay files: the ignore file is always part of the path universe
+        if oc.IGNORE_NAME not in c["proj"]["paths"]:
+            _add_ignore_path(c)
     t1 = _t.time()
     impls = pool_map(run_impl, cases, procs=8)
     phases["histories_on_implementation"] = round(_t.time() - t1, 1)
@@ -477,20 +549,24 @@ def run(tier: str, seed: int, replay: str | None = None) -> int:
         try:
             sub_c, sub_i = [cases[i] for i in ok_idx], [impls[i] for i in ok_idx]
             t1 = _t.time()
-            queries = phase_queries(sub_c, sub_i, wd)
+            th = oc.model_theories(chk, wd)
+            if th is False:
+                raise RuntimeError("no executable model")
+            queries = phase_queries(sub_c, sub_i, wd, th=th)
             phases["coq_queries"] = round(_t.time() - t1, 1)
             t1 = _t.time()
             measured = pool_map(measure_queries, [(c["proj"], q) for c, q in zip(sub_c, queries)], procs=8)
             phases["report_measurements"] = round(_t.time() - t1, 1)
             t1 = _t.time()
-            vs = phase_judge(sub_c, sub_i, queries, measured, wd)
+            vs = phase_judge(sub_c, sub_i, queries, measured, wd, th=th)
             phases["coq_judge"] = round(_t.time() - t1, 1)
             verdicts = dict(zip(ok_idx, vs))
             unmeasurable = sum(1 for ms in measured for m in ms if isinstance(m, dict))
             if unmeasurable:
                 chk.notes.append(f"{unmeasurable} report queries could not be measured on fresh rule objects")
         except RuntimeError as e:
-            chk.broken.append(f"Model:evaluation of the orchestrator model failed ({str(e)[:400]})")
+            if str(e) != "no executable model":
+                chk.broken.append(f"Model:evaluation of the orchestrator model failed ({str(e)[:400]})")
     cands_all = None
     names = ["actual"] + [f"actual without {f}" for f in FLAGS] + ["all C08 flags off"]
     for i, (case, impl) in enumerate(zip(cases, impls)):
